@@ -10,12 +10,17 @@ ALL = ["C%02d" % i for i in range(1, 21)]
 
 # property -> dict(engine, technique, text, note, design_ref)
 CHECKS = {
- "C10": dict(
-  engine="TMMerkle/TMPartSet",
-  technique="TLA+ spec (TMMerkle, TMPartSet) model-checked exhaustively by TLC; every TLC-enumerated proof case and every state of the part-set graph replayed on the real merkle.Proof / types.PartSet; observed traces validated by TLC (TMMerkleTrace)",
-  text="TLC enumerates every mutated/transplanted proof against trees of 1..4 (thorough 6) leaves and the full AddPart state graph; each case/transition is executed on the real code and TLC evaluates ProofBinds, PartBinds, Reassembles, Idempotent on the observed results. Exhaustive within the bounds, plus random part-set runs with real part sizes.",
-  note="SHA-256 collision-freedom assumed (symbolic injective hashes); byte strings of a few length classes stand for abstract items; TLC, the TLA value parser and the Go harness projection are trusted."),
 }
+
+
+def load_fragments():
+    d = os.path.join(VERIF, "lib", "props")
+    for f in sorted(os.listdir(d)):
+        if f.endswith(".manifest.json"):
+            with open(os.path.join(d, f)) as fh:
+                frag = json.load(fh)
+            CHECKS[frag["property_id"]] = frag
+
 
 NOT_YET = "check not built yet (work in progress; see DESIGN.md section 10)"
 
@@ -40,6 +45,7 @@ def main():
         "notes": "All checks: ./check Cxx --tier quick|thorough (cwd /verif). Honour VERIF_SEED, VERIF_TIER, VERIF_REPO (default /repo). Exit 0 held / 1 VIOLATION / 2 undecided. See DESIGN.md.",
         "not_applicable": [],
     }
+    load_fragments()
     engines = {}
     for pid in ALL:
         c = CHECKS.get(pid)
